@@ -283,6 +283,102 @@ fn lines_json(f: &[(String, String)]) -> J {
     J::obj().set("listing", J::Arr(f.iter().take(120).map(|(k, v)| J::Str(format!("{}: {}", k, v))).collect()))
 }
 
+fn render_abstract(a: &ASong, in_queue: bool) -> String {
+    let mut tags: BTreeMap<String, Vec<String>> = BTreeMap::new();
+    for (k, v) in &a.tags {
+        tags.entry(canonical_tag(k)).or_default().push(v.clone());
+    }
+    let mut tags: Vec<(String, Vec<String>)> = tags.into_iter().collect();
+    let song = crate::sim::listing::render_parts(&a.url, a.duration_ms.or(a.time_s.map(|t| t * 1000)), a.format.as_deref(), a.last_modified.map(|k| TIMESTAMPS[k].0), &mut tags);
+    if in_queue {
+        format!("pos={}|id={}|prio={}|range={:?}|{}", a.pos.unwrap_or(0), a.id.unwrap_or(0), a.prio.unwrap_or(0), a.range, song)
+    } else {
+        song
+    }
+}
+
+impl C14 {
+    /// The same decoding observed through the real client: the listing is the reply to a typed command issued
+    /// right after a command list that failed part-way (reply chopped into reads), inside the re-idle window,
+    /// with another caller and notifications around.
+    fn session_case(&self, cfg: &Cfg, i: u64, acc: &mut Acc) {
+        use crate::sim::analysis::Analysis;
+        use crate::sim::scenario::ms;
+        use crate::sim::session::{Req, Scenario, Step};
+        use crate::sim::world::{CallResult, SegPolicy};
+        let mut r = Rng::keyed(&[cfg.seed, 0x14c, i]);
+        let which = (i / 8 % 6) as usize;
+        let in_queue = which < 3;
+        let mut listing = gen_listing(&mut r, in_queue, 12);
+        listing.truncate(if which == 2 { 1 } else { 12 });
+        let lines = listing_lines(&listing, &mut r);
+        let want: Vec<String> = songs_of(&listing).iter().map(|s| render_abstract(s, in_queue)).collect();
+        let mut sc = Scenario::new("typed-listing", crate::util::rng::mix(&[cfg.seed, 0x14c, i]));
+        sc.world.listing = Some(lines.clone());
+        sc.world.seg = vec![r.pick(&[SegPolicy::PerLine, SegPolicy::Random(6), SegPolicy::PerByte, SegPolicy::Whole]).clone()];
+        sc.world.chunk_delay = vec![ms(r.below(3) as u64)];
+        sc.world.read_cap = *r.pick(&[7usize, 64, usize::MAX]);
+        let fail = Req::RawList { n: 3 + r.below(3), fail_at: Some((1 + r.below(2), *r.pick(&[50u64, 1050]))), shape: 2 };
+        sc.callers.push((ms(20), vec![Step::Do(fail), Step::Do(Req::TypedListing { which }), Step::Think(sess_d() * 2), Step::Do(Req::TypedListing { which }), Step::Do(Req::Raw { shape: 1 })]));
+        sc.callers.push((ms(20 + r.below(3) as u64), vec![Step::Do(Req::Raw { shape: r.below(7) as u64 }), Step::Do(Req::TypedListing { which })]));
+        if r.chance(1, 2) {
+            sc.notifications = vec![(ms(22), vec!["playlist".into()]), (ms(40), vec!["player".into()])];
+        }
+        let out = crate::sim::session::run_session(&sc);
+        acc.inc("evaluations");
+        acc.inc("listings_through_client_sessions");
+        if !super::sess::common_faultfree(acc, i, &sc, &out) {
+            return;
+        }
+        for h in &out.hung {
+            acc.violation(i, None, format!("{} never completed", h), super::sess::detail(&sc, &out));
+            return;
+        }
+        let a = Analysis::new(&out);
+        super::c01::check(acc, i, &sc, &out, &a, true);
+        let mut seen = 0;
+        for cv in a.calls() {
+            if !cv.desc.starts_with("TypedListing") {
+                continue;
+            }
+            seen += 1;
+            match cv.end.as_ref().map(|e| &e.2) {
+                Some(CallResult::Typed(got)) if *got == want => acc.count("songs_compared", want.len() as u64),
+                other => {
+                    let k = if let Some(CallResult::Typed(got)) = other { got.iter().zip(want.iter()).position(|(x, y)| x != y).unwrap_or(got.len().min(want.len())) } else { 0 };
+                    acc.violation(
+                        i,
+                        None,
+                        format!(
+                            "listing command {} through the client (call c{}#{}) decoded {} but the server listed {} songs; first difference at song {}: got {:?} want {:?}",
+                            which,
+                            cv.call.caller,
+                            cv.call.seq,
+                            other.map(|o| o.short()).unwrap_or_default(),
+                            want.len(),
+                            k,
+                            if let Some(CallResult::Typed(got)) = other { got.get(k).cloned() } else { None },
+                            want.get(k)
+                        ),
+                        super::sess::detail(&sc, &out).set("listing", J::Arr(lines.iter().take(60).map(|(k, v)| J::Str(format!("{}: {}", k, v))).collect())),
+                    );
+                    return;
+                }
+            }
+        }
+        if seen != 3 {
+            acc.violation(i, None, format!("expected 3 listing calls, saw {}", seen), super::sess::detail(&sc, &out));
+        }
+        if want.len() >= 2 {
+            acc.distinct("nontrivial", hash_bytes(format!("session{:?}", lines).as_bytes()));
+        }
+    }
+}
+
+fn sess_d() -> Duration {
+    crate::sim::session::reidle_delay()
+}
+
 impl Property for C14 {
     fn id(&self) -> &'static str {
         "C14"
@@ -294,6 +390,10 @@ impl Property for C14 {
         let mut r = Rng::keyed(&[cfg.seed, 14, i]);
         if cfg!(feature = "chrono") {
             acc.inc("evaluations_chrono_build");
+        }
+        if i % 8 == 7 {
+            self.session_case(cfg, i, acc);
+            return;
         }
         let which = i % 6;
         let in_queue = which < 3;
@@ -373,7 +473,7 @@ impl Property for C14 {
     fn meta(&self, _cfg: &Cfg, _acc: &Acc) -> Meta {
         Meta {
             level: "exploration",
-            rule: "abstract listings (0-60 entries: songs with any subset/order of duration, Time (before, after or without duration), Pos/Id/Prio/Range, Format, Last-Modified and 0-20 tag lines over 35 tag names in canonical/lower/upper case with 1-4 repetitions, adjacent or interleaved; directory and playlist entries with and without Last-Modified at any position incl. several in a row; URLs with blanks, ': ', non-ASCII and the words file/directory/playlist) are encoded, parsed by the real protocol layer and decoded by Queue, QueueRange, CurrentSong, Find, GetPlaylist and ListAllIn; compared with the reference decoding of the ABSTRACT listing (one song per file entry in order; url, duration from duration else Time, Pos/Id/Prio/Range, format, last-modified raw (+ instant with chrono), per-tag values in line order) and with the convenience accessors; default and chrono build; non-trivial = listing with >=2 songs or a non-song entry; distinct by listing lines".into(),
+            rule: "abstract listings (0-60 entries: songs with any subset/order of duration, Time (before, after or without duration), Pos/Id/Prio/Range, Format, Last-Modified and 0-20 tag lines over 35 tag names in canonical/lower/upper case with 1-4 repetitions, adjacent or interleaved; directory and playlist entries with and without Last-Modified at any position incl. several in a row; URLs with blanks, ': ', non-ASCII and the words file/directory/playlist) are encoded, parsed by the real protocol layer and decoded by Queue, QueueRange, CurrentSong, Find, GetPlaylist and ListAllIn; compared with the reference decoding of the ABSTRACT listing (one song per file entry in order; url, duration from duration else Time, Pos/Id/Prio/Range, format, last-modified raw (+ instant with chrono), per-tag values in line order) and with the convenience accessors; default and chrono build; every 8th case runs the listing command through the real client in a session (reply chopped into reads, issued right after a command list that failed part-way and again after the re-idle window, a second caller and notifications around); non-trivial = listing with >=2 songs or a non-song entry; distinct by listing lines".into(),
             nontrivial_set: "nontrivial",
             assumptions: vec![
                 "scalar attributes are not repeated within one song and URLs are non-empty (neither occurs in MPD output; the empty URL is the builder's own 'no song' sentinel)".into(),
@@ -388,6 +488,7 @@ impl Property for C14 {
                 ("songs_duration_before_time".into(), 20),
                 ("songs_time_only".into(), 20),
                 ("evaluations_chrono_build".into(), 1),
+                ("listings_through_client_sessions".into(), 100),
             ],
             extra: vec![],
         }
